@@ -24,18 +24,28 @@ def deliverItems : List Conn.Frame → List Conn.Item
 
 def deliverable (l : List Conn.Frame) : List Conn.Frame := (deliverItems l).map Conn.itemFrame
 
-/-- the frames the server sent under message ID `k`, as far as the driver has read them, in order -/
-def sentFor (s : Conn.St) (k : Nat) : List Conn.Frame :=
-  (s.srvLog.take s.pos).filter fun f => f.id == (k : Int)
+/-- the frames the server sent under message ID `k`, from its `p0`-th frame on, as far as the driver
+has read them, in order -/
+def sentFrom (s : Conn.St) (p0 k : Nat) : List Conn.Frame :=
+  ((s.srvLog.take s.pos).drop p0).filter fun f => f.id == (k : Int)
+
+/-- all of them -/
+def sentFor (s : Conn.St) (k : Nat) : List Conn.Frame := sentFrom s 0 k
+
+theorem sentFor_eq (s : Conn.St) (k : Nat) :
+    sentFor s k = (s.srvLog.take s.pos).filter fun f => f.id == (k : Int) := by
+  simp [sentFor, sentFrom]
 
 /-- HYPOTHESIS of the end-to-end theorems (completeness of routing, to be discharged by
 `C01_complete`): the channel `ch` of the search `o` has been given every frame the server sent under
-the search's ID that the driver read, up to the frame that ends the search.
-It is a statement about ONE state, decidable, and true e.g. in `C10_conn_stream`'s example. -/
-def ChanComplete (s : Conn.St) (ch : Conn.Chan) (o : Conn.Op) : Prop :=
-  ch.items.map Conn.itemFrame = deliverable (sentFor s o.id)
+the search's ID that the driver read, up to the frame that ends the search.  `p0` = how many frames
+the server had sent when the search was registered (frames under this ID read before that belong to
+nobody and are dropped, `C01_unmatched_inert`; 0 if there are none).
+It is a statement about ONE state, decidable, and true e.g. in `C10_conn_stream`'s examples. -/
+def ChanComplete (s : Conn.St) (ch : Conn.Chan) (o : Conn.Op) (p0 : Nat) : Prop :=
+  ch.items.map Conn.itemFrame = deliverable (sentFrom s p0 o.id)
 
-instance (s : Conn.St) (ch : Conn.Chan) (o : Conn.Op) : Decidable (ChanComplete s ch o) := by
+instance (s : Conn.St) (ch : Conn.Chan) (o : Conn.Op) (p0 : Nat) : Decidable (ChanComplete s ch o p0) := by
   unfold ChanComplete; exact inferInstance
 
 /-- the view the PROPERTY prescribes for the frames `l` sent under the search's ID: the items in
@@ -93,8 +103,8 @@ theorem items_eq_of_frames : ∀ (a b : List Conn.Item), (∀ x ∈ a, clsOk x) 
       items_eq_of_frames a b (fun z hz => ha z (by simp [hz])) (fun z hz => hb z (by simp [hz])) h.2]
 
 /-- with the classification invariant, completeness at the level of frames is completeness at the level of items -/
-theorem items_of_complete {s : Conn.St} {ch : Conn.Chan} {o : Conn.Op} (hok : ChanOk ch) (hcomp : ChanComplete s ch o) :
-    ch.items = deliverItems (sentFor s o.id) :=
+theorem items_of_complete {s : Conn.St} {ch : Conn.Chan} {o : Conn.Op} {p0 : Nat} (hok : ChanOk ch) (hcomp : ChanComplete s ch o p0) :
+    ch.items = deliverItems (sentFrom s p0 o.id) :=
   items_eq_of_frames _ _ hok.2 (clsOk_deliverItems _) hcomp
 
 theorem rawView_deliver (D : Content) (opn : Bool) : ∀ (l : List Conn.Frame),
@@ -108,9 +118,9 @@ theorem rawView_deliver (D : Content) (opn : Bool) : ∀ (l : List Conn.Frame),
       · simp [recvOf, rawView]
       · cases opn <;> simp [rawView]
 
-theorem rawView_fullScript (D : Content) {s : Conn.St} {c : Nat} {ch : Conn.Chan} {o : Conn.Op}
-    (hc : s.chans[c]? = some ch) (hok : ChanOk ch) (hcomp : ChanComplete s ch o) :
-    rawView (fullScript D s c) = sentView D (Conn.chanOpen s c) (sentFor s o.id) := by
+theorem rawView_fullScript (D : Content) {s : Conn.St} {c : Nat} {ch : Conn.Chan} {o : Conn.Op} {p0 : Nat}
+    (hc : s.chans[c]? = some ch) (hok : ChanOk ch) (hcomp : ChanComplete s ch o p0) :
+    rawView (fullScript D s c) = sentView D (Conn.chanOpen s c) (sentFrom s p0 o.id) := by
   rw [fullScript_eq hc, items_of_complete hok hcomp]
   exact rawView_deliver D (Conn.chanOpen s c) _
 
@@ -138,13 +148,13 @@ theorem startOutcome_script (eoFlag : Bool) (h : Handle) (q : Query) (l : List R
 /-- the bridge, most general form: any reachable-state channel that is complete for its search; no
 assumption on whether the search or the driver has ended (`chanOpen` decides between waiting and
 EndOfStream when the frames stop short of a result) -/
-theorem conn_stream_refines (D : Content) {s : Conn.St} {c : Nat} {ch : Conn.Chan} {o : Conn.Op}
-    (hc : s.chans[c]? = some ch) (hok : ChanOk ch) (hcomp : ChanComplete s ch o)
+theorem conn_stream_refines (D : Content) {s : Conn.St} {c : Nat} {ch : Conn.Chan} {o : Conn.Op} {p0 : Nat}
+    (hc : s.chans[c]? = some ch) (hok : ChanOk ch) (hcomp : ChanComplete s ch o p0)
     (eoFlag : Bool) (h : Handle) (q : Query) (calls : List Call) :
     run (init (if eoFlag then [eo] else []) h [.script (fullScript D s c)]) (.start q :: calls) =
       Cursor.run (if q.filterOk then .ok else .err .filterParsing)
-        (Cursor.ofView (if eoFlag then eoView (sentView D (Conn.chanOpen s c) (sentFor s o.id))
-          else sentView D (Conn.chanOpen s c) (sentFor s o.id)))
+        (Cursor.ofView (if eoFlag then eoView (sentView D (Conn.chanOpen s c) (sentFrom s p0 o.id))
+          else sentView D (Conn.chanOpen s c) (sentFrom s p0 o.id)))
         (.start q :: calls) := by
   have hv := rawView_fullScript D hc hok hcomp
   cases eoFlag with
@@ -164,10 +174,10 @@ theorem conn_stream_refines (D : Content) {s : Conn.St} {c : Nat} {ch : Conn.Cha
     rfl
 
 /-- the driver has ended, or the search is complete: the ending is the server's result or EndOfStream -/
-theorem sentView_ended (D : Content) {s : Conn.St} {c : Nat} {ch : Conn.Chan} {o : Conn.Op}
-    (hwf : ChanWF s) (hc : s.chans[c]? = some ch) (hcomp : ChanComplete s ch o)
+theorem sentView_ended (D : Content) {s : Conn.St} {c : Nat} {ch : Conn.Chan} {o : Conn.Op} {p0 : Nat}
+    (hwf : ChanWF s) (hc : s.chans[c]? = some ch) (hcomp : ChanComplete s ch o p0)
     (hend : s.drv ≠ .running ∨ ∃ f, Conn.Item.done f ∈ ch.items) :
-    sentView D (Conn.chanOpen s c) (sentFor s o.id) = sentView D false (sentFor s o.id) := by
+    sentView D (Conn.chanOpen s c) (sentFrom s p0 o.id) = sentView D false (sentFrom s p0 o.id) := by
   rcases hend with hd | ⟨f, hf⟩
   · rw [hwf.closed_of_dead hd c]
   · rw [items_of_complete (hwf.get hc) hcomp] at hf
@@ -186,10 +196,10 @@ theorem deliverItems_shape : ∀ (its : List Conn.Frame) (fd : Conn.Frame) (rest
       deliverItems_shape its fd rest (fun g hg' => hi g (by simp [hg'])) h5 hg]
 
 /-- the script of a complete search whose frames are `its` (items) followed by the result `fd` -/
-theorem fullScript_shape (D : Content) {s : Conn.St} {c : Nat} {ch : Conn.Chan} {o : Conn.Op}
-    (hc : s.chans[c]? = some ch) (hok : ChanOk ch) (hcomp : ChanComplete s ch o)
+theorem fullScript_shape (D : Content) {s : Conn.St} {c : Nat} {ch : Conn.Chan} {o : Conn.Op} {p0 : Nat}
+    (hc : s.chans[c]? = some ch) (hok : ChanOk ch) (hcomp : ChanComplete s ch o p0)
     {its : List Conn.Frame} {fd : Conn.Frame} {rest : List Conn.Frame}
-    (hsent : sentFor s o.id = its ++ fd :: rest) (hi : ∀ f ∈ its, isItemOp f.op = true)
+    (hsent : sentFrom s p0 o.id = its ++ fd :: rest) (hi : ∀ f ∈ its, isItemOp f.op = true)
     (h5 : fd.op = 5) (hg : fd.good = true) :
     fullScript D s c = (its.map (itemOf D)).map Recv.item ++ .done (resOf D fd) :: closedTail s c := by
   rw [fullScript_eq hc, items_of_complete hok hcomp, hsent, deliverItems_shape its fd rest hi h5 hg]
@@ -271,6 +281,7 @@ theorem fullScript_sound (D : Content) {s : Conn.St} (hr : Conn.RouteInv s) (hwf
       rw [ho] at ho2; cases ho2
       simp [hid]
     have := hsub.filter (fun f => f.id == (o.id : Int))
+    rw [sentFor_eq]
     rwa [List.filter_eq_self.mpr hall] at this
   · intro f hf
     obtain ⟨it, hit, rfl⟩ := List.mem_map.mp hf
